@@ -412,6 +412,15 @@ func (c *Ctx) installBuiltins(ev *spec.Eval) {
 		x, y := ev.Eval(a[0]).V.(sx.Slice), ev.Eval(a[1]).V.(sx.Slice)
 		return spec.TV{V: smt.BoolC(x.Obj == y.Obj && x.Obj != 0)}
 	}
+	// heap_unchanged(): no object that existed at entry was written
+	B["heap_unchanged"] = func(ev *spec.Eval, a []ast.Expr) spec.TV {
+		for id, v := range ev.OldHeap {
+			if now, ok := p.Heap[id]; !ok || !sameHeapVal(now, v) {
+				return spec.TV{V: smt.False}
+			}
+		}
+		return spec.TV{V: smt.True}
+	}
 	B["isnil"] = func(ev *spec.Eval, a []ast.Expr) spec.TV {
 		v := ev.Eval(a[0])
 		switch x := v.V.(type) {
